@@ -10,6 +10,10 @@ Pitfalls (library right, naive oracle wrong):
   * NumPy `div` of a 1-D field on a one-cell mesh returns shape (nq,) instead of (1, nq) (einsum 'ii...' happens
     to succeed on (1, 1, nq)); the values are right and it broadcasts, so shapes are compared up to
     broadcasting for this helper.
+  * the definitions are bilinear index sums: on complex input nothing is conjugated (family helpers-dtypes compares
+    against the plain sums in complex128); float32 input promises single precision only (rtol 1e-5).
+  * the JAX `det` / `eye` have no branch for field objects; `det` works by duck typing, `eye(JaxDiscreteField, n)`
+    raises ValueError - tolerated and counted, a returned value must be right.
   * Cramer's rule loses cond(A) digits: matrices for `inv` are drawn with cond <= 50 and the error is measured
     relative to max|inv(A)| per matrix, `det` relative to the Hadamard bound per matrix.
 """
@@ -509,6 +513,153 @@ def fam_helpers_fields(ctx, k):
         synthetic_fields(ctx, rng, k // 2)
     else:
         real_fields(ctx, rng, k // 2)
+
+
+# ------------------------------------------------------------------ input data types other than real float64
+# Checks listed here are evaluated and classified but do not fail the run (suspected genuine defects that are
+# reported to the maintainers of the harness instead of being added to the known findings).
+REPORT_ONLY = set()      # (the inv(DiscreteField) defect it held was repaired in the library: 845b6f0)
+
+DTYPE_VARIANTS = ("complex128", "float32", "int64", "field")
+
+
+def typed(rng, shape, variant):
+    """(array as given to the helper, the same numbers in float64 / complex128)."""
+    if variant == "int64":
+        g = rng.integers(-3, 4, size=shape).astype(np.int64)
+        return g, g.astype(np.float64)
+    x = rng.standard_normal(shape)
+    if variant == "complex128":
+        g = x + 1j * rng.standard_normal(shape)
+        return g, g
+    if variant == "float32":
+        g = x.astype(np.float32)
+        return g, g.astype(np.float64)
+    return x, x
+
+
+def typed_invertible(rng, n, tr, variant):
+    """Matrices with a moderate condition number in the data type of the variant."""
+    if variant == "int64":
+        g = rng.integers(-2, 3, size=(n, n) + tr).astype(np.int64)
+        for i in range(n):
+            g[i, i] += 6                      # strictly diagonally dominant
+        return g, g.astype(np.float64)
+    A = np.array(well_conditioned(rng, n, tr, "C"))
+    if variant == "complex128":
+        ph = np.exp(1j * rng.uniform(0, 2 * np.pi, size=tr))
+        g = A * ph + 0.02 * (rng.standard_normal(A.shape) + 1j * rng.standard_normal(A.shape))
+        return g, g
+    if variant == "float32":
+        g = A.astype(np.float32)
+        return g, g.astype(np.float64)
+    return A, A
+
+
+def compare_any(ctx, monitor, label, got, ref, scale, mech, rtol, **detail):
+    """compare() for results that may be complex: |got - ref| <= rtol * scale pointwise, same shape, all finite."""
+    try:
+        g = np.asarray(got)
+        if g.dtype == object:
+            raise TypeError("object array")
+    except Exception as e:
+        return ctx.check(monitor, False, mech=mech, helper=label, problem="not-an-array:" + repr(e)[:80], **detail)
+    ref = np.asarray(ref)
+    if g.shape != ref.shape:
+        return ctx.check(monitor, False, mech=mech, helper=label, problem="shape", got_shape=g.shape, ref_shape=ref.shape, **detail)
+    err = np.abs(g - ref)
+    ok = bool(np.all(err <= rtol * np.asarray(scale, dtype=float))) and bool(np.all(np.isfinite(g)))
+    return ctx.check(monitor, ok, mech=mech, helper=label, max_err=lambda: float(np.nanmax(err)) if err.size else 0.0,
+                     max_ref=lambda: float(np.abs(ref).max()) if ref.size else 0.0, got_dtype=str(g.dtype),
+                     got_head=lambda: g.ravel()[:4], ref_head=lambda: ref.ravel()[:4], **detail)
+
+
+def typed_cases(rng, n, tr, variant):
+    """(label, helper, args as given, args in wide precision, reference, scale).  The definitions are the bilinear
+    index sums (no complex conjugation anywhere)."""
+    mk = lambda *shape: typed(rng, shape + tr, variant)
+    (u, U), (v, V), (w3, W3) = mk(n), mk(n), mk(n)
+    (A, AA), (B, BB) = mk(n, n), mk(n, n)
+    (T, TT), (S, SS) = mk(n, n, n), mk(n, n, n)
+    ab = np.abs
+    out = [("dot", "dot", (u, v), d_dot(U, V)[0], d_dot(ab(U), ab(V))[1]),
+           ("ddot", "ddot", (A, B), d_ddot(AA, BB)[0], d_ddot(ab(AA), ab(BB))[1]),
+           ("dddot", "dddot", (T, S), d_dddot(TT, SS)[0], d_dddot(ab(TT), ab(SS))[1]),
+           ("prod-2", "prod", (u, v), d_prod2(U, V)[0], ab(d_prod2(U, V)[0])),
+           ("prod-3", "prod", (u, v, w3), d_prod3(U, V, W3)[0], ab(d_prod3(U, V, W3)[0])),
+           ("mul-matvec", "mul", (A, u), d_matvec(AA, U)[0], d_matvec(ab(AA), ab(U))[1]),
+           ("mul-matmat", "mul", (A, B), d_matmat(AA, BB)[0], d_matmat(ab(AA), ab(BB))[1]),
+           ("trace", "trace", (A,), d_trace(AA)[0], d_trace(ab(AA))[1]),
+           ("transpose", "transpose", (A,), np.swapaxes(AA, 0, 1), ab(np.swapaxes(AA, 0, 1))),
+           ("det", "det", (A,), np.linalg.det(mv(AA)), np.prod(np.sqrt((ab(AA) ** 2).sum(1)), axis=0)),
+           ("cross", "cross", (u, v), d_cross(U, V)[0], d_cross(ab(U), ab(V))[1] if n == 2 else
+            np.sqrt((ab(U) ** 2).sum(0)) * np.sqrt((ab(V) ** 2).sum(0)) * np.ones(U.shape))]
+    wv, WV = typed(rng, tr, variant)
+    E = np.zeros((n, n) + tr, dtype=WV.dtype)
+    for i in range(n):
+        E[i, i] = WV
+    out.append(("eye", "eye", (wv, n), E, ab(E)))
+    Ai, AI = typed_invertible(rng, n, tr, variant)
+    M = mv(AI)
+    ref = np.moveaxis(np.linalg.inv(M), (-2, -1), (0, 1))
+    cond = np.linalg.cond(M)
+    out.append(("inv", "inv", (Ai,), ref, ab(ref).max((0, 1)) * np.maximum(cond, 1.0) * np.ones(ref.shape)))
+    return out
+
+
+def fam_helper_dtypes(ctx, k):
+    """Helpers on complex128 / float32 / integer arrays and on field objects (DiscreteField, JaxDiscreteField) instead of
+    raw arrays.  Reference: the same definitions evaluated by NumPy in complex128 / float64."""
+    import jax.numpy as jnp
+    from skfem import helpers as NH
+    from skfem.autodiff import helpers as JHm
+    from skfem.autodiff import JaxDiscreteField
+    from skfem.element import DiscreteField
+    rng = ctx.rng()
+    n = 3 - k % 2
+    variant = DTYPE_VARIANTS[(k + k // 4) % len(DTYPE_VARIANTS)]      # 4 cases: every variant; 8 cases: with n = 2 and 3
+    tr = TRAILING[(k // 8 + k // 2) % len(TRAILING)]
+    if variant == "field" and len(tr) != 2:
+        tr = (3, 2)                                           # fields live on cells x quadrature points
+    rtol = 1e-5 if variant == "float32" else RT
+    for label, name, args, ref, scale in typed_cases(rng, n, tr, variant):
+        isarr = lambda x: isinstance(x, np.ndarray)
+        # ---- NumPy variant
+        if name in NP_RAW:
+            nargs = tuple(DiscreteField(x) if (variant == "field" and isarr(x)) else x for x in args)
+            got = getattr(NH, name)(*nargs)
+            mech = f"np-helper-dtype:{variant}:{label}"
+            if variant == "field" and name == "inv":
+                g = np.asarray(got)
+                if g.shape == ref.shape and not g.any() and np.abs(ref).max() > 0:
+                    mech = "np-inv-of-a-DiscreteField-returns-zeros"
+            if mech in REPORT_ONLY:
+                ctx.tolerated("helper-np-definition")
+                ctx.drop("report-only:" + mech)
+            else:
+                compare_any(ctx, "helper-np-definition", label, got, ref, scale, mech, rtol, n=n, trailing=tr, variant=variant)
+        # ---- JAX variant
+        if name in JAX_RAW:
+            if variant == "field":
+                if name not in JAX_ACCEPTS_FIELD and name not in ("det", "eye"):
+                    continue
+                jargs = tuple(JaxDiscreteField(jnp.asarray(x)) if isarr(x) else x for x in args)
+            else:
+                jargs = tuple(jnp.asarray(x) if (isarr(x) and (k // 8) % 2 == 0) else x for x in args)
+            try:
+                got = getattr(JHm, name)(*jargs)
+            except (TypeError, ValueError) as e:
+                if variant == "field" and name not in JAX_ACCEPTS_FIELD:
+                    # det / eye have no branch for field objects: refusing one is legitimate, a wrong value is not
+                    ctx.tolerated("helper-jax-definition")
+                    ctx.drop(f"jax-{name}-refuses-field-object")
+                    continue
+                raise
+            compare_any(ctx, "helper-jax-definition", label, got, ref, scale, f"jax-helper-dtype:{variant}:{label}", rtol,
+                        n=n, trailing=tr, variant=variant)
+        ctx.nontrivial("dtype", variant, label, n)
+    ctx.reached("helper-dtype:" + variant)
+    ctx.sample({"module": "both", "n": n, "trailing": tr, "variant": variant}, per_family=2)
 
 
 # ------------------------------------------------------------------ discovery
